@@ -11,6 +11,21 @@ CHECKS = {
             "Generated-input search over well-typed expression DAGs (all operators, width/literal boundary classes, rule-shaped operand choices) simplified in three modes; the result must keep the type, type-check node by node and evaluate like the original under every (<=12 symbol bits) or 24 sampled assignments in an independent evaluator. Sampling, not proof.",
             "Trusts the harness' reference evaluator and type rules; both sides of the comparison are judged by it, never by patronus' evaluator.",
             "DESIGN.md 5/C01"),
+    "C02": ("exploration",
+            "proptest over generated systems x bounds x solver profiles x modes; differential oracle: explicit-state reachability of the reference simulator; real SmtLibSolverCtx against the reference solver shim",
+            "patronus::mc::bmc runs through its real text protocol against a strict reference solver (own SMT-LIB checker in front of z3, randomised models) under the names bitwuzla/yices-smt2/z3/cvc5; the verdict must equal explicit-state reachability up to the bound for every configuration (3 per system); errors, Unknown and panics fail; witnesses are replayed. Sampling, not proof.",
+            "Trusts refsim's semantics and z3 4.8.12's sat/unsat answers on tiny queries (a wrong answer would appear as a mismatch). Each case runs in an isolated worker process.",
+            "DESIGN.md 5/C02"),
+    "C03": ("exploration",
+            "proptest over unsafe systems x engines x solver model seeds; oracle: witness replay in the reference simulator and in patronus' Interpreter",
+            "Every ModelCheckResult::Fail witness produced by bmc and pdr under three different solver models is checked for shape (names, order, widths, a value for every input at every step), init agreement, constraints at every step and the exact failed set at the last step by replay in the reference simulator, and driven through patronus::sim::Interpreter. Sampling, not proof.",
+            "Trusts refsim. The replay is existential over next-less states, which the witness format cannot carry.",
+            "DESIGN.md 5/C03"),
+    "C04": ("exploration",
+            "proptest over generated systems x depths x entry points; oracle: strict independent SMT-LIB scope/sort checker + evaluation of the script under concrete executions",
+            "The script emitted by UnrollSmtEncoding (through a recording SolverContext and the real serializer) is checked strictly (declared/defined exactly once before use, well-sorted) and evaluated under concrete executions of the reference simulator: every per-step symbol must have the value of its signal. Sampling, not proof.",
+            "Trusts smtref and refsim.",
+            "DESIGN.md 5/C04"),
     "C05": ("exploration",
             "proptest over choice-tape expressions/commands; oracle: independent strict SMT-LIB sort checker + evaluator vs reference evaluator",
             "Every generated command text from serialize_cmd is lexed, sort-checked strictly (1-bit symbols declared Bool) and evaluated by an independent SMT-LIB 2.6 front end; identifiers must read back verbatim and values must equal the reference evaluator's under all/sampled assignments. Sampling, not proof.",
@@ -36,11 +51,21 @@ CHECKS = {
             "Generated systems and every shipped btor2 file are serialized and parsed back into the same Context; counts, types and every function are compared positionally (identical reference or reference-evaluator-equal); names of parsed systems must survive another cycle. Sampling, not proof.",
             "Trusts refeval; systems the writer documents as unsupported (constant array outside init, undeclared symbol) are skipped and counted.",
             "DESIGN.md 5/C09"),
+    "C10": ("exploration",
+            "proptest over generated bit-vector systems x generalisation x profiles x unsat-core modes x model seeds; oracle: full explicit-state reachability fixpoint",
+            "patronus::mc::pdr runs against the reference solver, which answers with randomised models and alternative valid unsat cores (z3's, all assumptions, deletion-minimal, core plus random extras); Success iff the reachability fixpoint has no bad state, Fail iff it has one; Unknown/error/panic fail; witnesses are replayed. A case exceeding 180 s is inconclusive (exit 2). Sampling, not proof.",
+            "Trusts refsim and z3 behind the shim; the shim's alternative cores are valid by construction (supersets of a core / minimal subsets re-checked).",
+            "DESIGN.md 5/C10"),
     "C11": ("exploration",
             "proptest over generated systems; metamorphic oracle: function-by-function reference evaluation + lock-step reference simulation",
             "Generated systems are transformed by simplify_expressions / replace_anonymous_inputs_with_zero and compared with the original function by function under all (<= 14 bits) or sampled assignments, by 4-step lock-step reference simulation, by symbol scans and by name checks. Sampling, not proof.",
             "Trusts refeval/refsim.",
             "DESIGN.md 5/C11"),
+    "C15": ("fault_enumeration",
+            "exhaustive fault enumeration: every response position x 9 fault kinds injected by the reference solver; killable child processes",
+            "For fixed safe/unsafe systems and each engine (bmc, pdr with/without cores, a bare SolverContext session) a clean run determines the response-bearing points; every position up to the bound x every fault kind is injected; the run must return an error or Unknown within 25 s (killed otherwise), never a verdict or panic, and error messages must arrive verbatim. Exhaustive within the stated bounds.",
+            "A faulted run exceeding 25 s (clean < 1 s) counts as blocking forever.",
+            "DESIGN.md 5/C15"),
     "C16": ("exploration",
             "proptest round-trip printer->reader over generated witnesses and witness streams",
             "Generated complete witnesses (wide bit-vectors, arrays with duplicate/zero entries, sparse and dense) and streams of 1-5 witnesses are printed with witness_to_string and read back with parse_witness / parse_witnesses for n' below/at/above the number written; all fields are compared. Sampling, not proof.",
